@@ -3,10 +3,36 @@ CONFIG = {
     "driver": "c14_driver.ml",
     "model_module": "c14_model",
     "level": "proof",
-    "level_text": "WORK IN PROGRESS",
-    "level_note": "WORK IN PROGRESS",
-    "trusted_base": [],
-    "assumptions": [],
-    "coq_timeout": 1200,
+    "level_text": (
+        "Coq theorems (no axioms) about executable models of mac.Encode/Decode, utf16Encode/Decode, "
+        "post.Info.Encode/post.Read and name.Info.Encode/name.Decode, over the tables regenerated from the Go source on every run: "
+        "macroman_inverse (enc(dec b)=b for all 256 bytes, dec(enc r)=r on the repertoire, and for strings of any length); "
+        "utf16_roundtrip (every string of Unicode scalar values: the encoder equals the Unicode definition of UTF-16BE and the decoder inverts it) and utf16_decode_total; "
+        "post_roundtrip (nil -> format 3, standard Macintosh order -> format 1, any other list of <= 65535 names of <= 255 bytes whose glyphNameIndex fits 16 bits -> format 2: Read returns exactly the list and header) and post_read_total (no panic on any bytes; needs 255 <= parser.bufferSize, re-checked); "
+        "name_roundtrip (every iteration order of the Go language maps, every Info that is a finite map with Mac strings in the repertoire and Windows strings of scalar values, Windows encoding id 1: if record area and string storage fit 16 bits, Decode(Encode(info)) maps every supported (platform, tag, name id) to the input string and nothing else), name_strings_shared (storage = concatenation of pairwise distinct strings), name_decode_total; "
+        "langid_tables_injective (both language-id tables are bijections); otf_tag_roundtrip (every script x language pair of gtab's tables survives the BCP 47 private-use extension, under a stated and satisfiable hypothesis on golang.org/x/text). "
+        "The guards Encode lacks are hypotheses of the theorems and recorded findings (witnesses *_refuted in Examples.v). "
+        "Models are tied to /repo by the regenerated tables (mac.dec/enc, post.macRoman, name.appleBCP/msBCP, gtab.scriptBcp47/langBcp47, parser.bufferSize) and by running the extracted model and the Go code on the same generated and mutated inputs."
+    ),
+    "level_note": (
+        "Partial: BCP 47 parsing/matching is golang.org/x/text (external); the tag round trip is proved under the hypothesis xtext_spec and "
+        "additionally executed in Go for all 103 707 script x language pairs (directly and through an encoded ScriptList) and all 322 name language ids; Tables.Choose is executed, not modelled. "
+        "The UTF-8 layer of Go strings ([]rune(s), string(runes)) and unicode/utf16 are modelled (utf16) or trusted (UTF-8), compared on every case. "
+        "The Table struct <-> finite map (name id -> string) abstraction is harness glue (explicit field table written from the OpenType name-id list). "
+        "ScriptList byte layout belongs to C08; here it is only exercised by the oracle."
+    ),
+    "trusted_base": [
+        "modelled, not verified: mac/encoding.go, name/name.go (Encode, Decode, nameBuilder, utf16Encode/Decode), name/table.go keys() as 'sorted non-empty entries', post/post.go, post/names.go isMacRoman, opentype/gtab/locale.go string construction and x-extension parsing (C14/Model.v, C14/ModelTags.v)",
+        "Section-style hypothesis xtext_spec (golang.org/x/text/language): a tag whose part before -x- has no singleton x and whose private-use subtags are 1..8 alphanumerics parses and Extension('x') is the lower-cased private-use part; shown satisfiable in Coq (xtext_ref) and observed in Go on every pair of the tables",
+        "Go map iteration order is a parameter of the name model (any permutation of the language tables); the sort of records uses pairwise distinct keys (sort.Slice instability is irrelevant)",
+        "independent readers used by the oracle: golang.org/x/text/encoding/charmap.Macintosh, a UTF-16 codec and name/post readers written from the specifications in the harness, golang.org/x/image/font/sfnt Name/GlyphName on the Go Regular font carrying the table under test",
+    ],
+    "assumptions": [
+        "name.Info.Encode is called with windowsEncodingID = 1 (the only value the library uses, write.go); Decode ignores Windows records with other encoding ids",
+        "name.Info values are finite maps: a name id below 26 other than 15 lives in its struct field, not in Extra; strings are valid UTF-8",
+        "post glyph names are at most 255 bytes (the property's quantifier); the post header's ItalicAngle is a 16.16 value",
+        "bytes are < 256 (bytes_ok) in the totality theorems",
+    ],
+    "coq_timeout": 1500,
     "gen_timeout": 1800,
 }
